@@ -37,6 +37,8 @@ func runStatic(prog *Prog, sc StaticCheck) *StaticResult {
 		return runSpawn(prog, sc)
 	case "once-init":
 		return runOnceInit(prog, sc)
+	case "call-order":
+		return runCallOrder(prog, sc)
 	case "import-check":
 		return runImportCheck(prog, sc)
 	case "escaped-format":
@@ -699,4 +701,68 @@ func errKnownNonNil(v ssa.Value, b *ssa.BasicBlock) bool {
 		}
 	}
 	return false
+}
+
+// runCallOrder: in <func>, the calls listed in <order> (callee contract names, comma separated) each occur exactly
+// once and each dominates the next: the operations are applied in that order on every path.
+func runCallOrder(prog *Prog, sc StaticCheck) *StaticResult {
+	res := &StaticResult{Name: sc.Name, Kind: sc.Kind}
+	fn := prog.FindFunc(modPath+"/"+sc.Pkg, sc.Args["func"])
+	if fn == nil {
+		res.Obligations = 1
+		res.Failures = append(res.Failures, "binding: function "+sc.Args["func"]+" not found")
+		return res
+	}
+	var order []string
+	for _, o := range strings.Split(sc.Args["order"], ",") {
+		if o = strings.TrimSpace(o); o != "" {
+			order = append(order, o)
+		}
+	}
+	calls := map[string][]*ssa.Call{}
+	for _, b := range fn.Blocks {
+		for _, in := range b.Instrs {
+			if c, ok := in.(*ssa.Call); ok && c.Call.StaticCallee() != nil {
+				n := contractName(c.Call.StaticCallee())
+				calls[n] = append(calls[n], c)
+			}
+		}
+	}
+	dominates := func(a, b *ssa.Call) bool {
+		if a.Block() == b.Block() {
+			for _, in := range a.Block().Instrs {
+				if in == a {
+					return true
+				}
+				if in == b {
+					return false
+				}
+			}
+		}
+		return a.Block().Dominates(b.Block())
+	}
+	for _, o := range order {
+		res.Obligations++
+		if len(calls[o]) != 1 {
+			res.Failures = append(res.Failures, fmt.Sprintf("%s calls %s %d times (expected exactly once)", sc.Args["func"], o, len(calls[o])))
+			continue
+		}
+		res.Discharged++
+	}
+	for i := 0; i+1 < len(order); i++ {
+		a, b := calls[order[i]], calls[order[i+1]]
+		if len(a) != 1 || len(b) != 1 {
+			continue
+		}
+		res.Obligations++
+		if dominates(a[0], b[0]) {
+			res.Discharged++
+			if len(res.Samples) < 3 {
+				res.Samples = append(res.Samples, map[string]interface{}{"obligation": fmt.Sprintf("%s#%s is applied before %s on every path", sc.Args["func"], order[i], order[i+1]), "backend": "dominance"})
+			}
+		} else {
+			res.Failures = append(res.Failures, fmt.Sprintf("%s: %s (%s) does not precede %s (%s) on every path", sc.Args["func"], order[i], posOf(prog, a[0].Pos()), order[i+1], posOf(prog, b[0].Pos())))
+		}
+	}
+	return res
 }
